@@ -24,8 +24,83 @@ def spec_from_seed(run_seed, tier):
     return gc.make_spec(run_seed, tier, "C07", forced_prob=0.5)
 
 
+ENDURANCE_UNITS = {"quick": 12000, "thorough": 30000}
+
+
+def spec_for_index(idx, run_seed, tier):
+    """Run 0 of a batch (runs 0-2 in the thorough tier) is one long history on ONE parsed object: generation after generation
+    until the object has attached more than 12 000 (30 000) repeat units in its lifetime, the stop rule audited every time.
+    Whatever an object counts or accumulates over its lifetime must not reach the stop rule."""
+    import random
+
+    if idx < (1 if tier == "quick" else 3):
+        rnd = random.Random(run_seed)
+        unit = rnd.choice(["{0}CC{1}", "{0}CC(C){1}", "{0}CCO{1}", "{0}C{1}"])
+        sym = rnd.choice(["$", "<>"])
+        a, b = ("[$]", "[$]") if sym == "$" else ("[<]", "[>]")
+        lt, rt = ("[$]", "[$]") if sym == "$" else ("[>]", "[<]")
+        from .. import archetypes
+
+        m = archetypes.unit_mass(unit)
+        law = rnd.choice(["|gauss(%r, %r)|" % (round(30 * m, 1), round(6 * m, 1)), "|uniform(%d, %d)|" % (int(15 * m), int(45 * m)), "|poisson(%r)|" % round(28 * m, 1)])
+        text = rnd.choice(["C", "[H]", "CC"]) + "{" + lt + unit.format(a, b) + rt + "}" + law + rnd.choice(["C", "F", "[H]"])
+        return {"kind": "endurance", "prop": "C07", "text": text, "units": ENDURANCE_UNITS[tier], "seed": rnd.randrange(1 << 40), "tags": ["endurance"]}
+    return spec_from_seed(run_seed, tier)
+
+
 def execute(spec):
+    if spec.get("kind") == "endurance":
+        return _execute_endurance(spec)
     return gc.execute(spec, PROPS)
 
 
-shrink_candidates = gc.shrink_candidates
+def _execute_endurance(spec):
+    import hashlib
+
+    from .. import genrun, reader
+
+    text = spec["text"]
+    try:
+        ast = reader.read_molecule(text).build()
+    except Exception as exc:
+        return {"harness_error": f"reader failed: {exc!r}", "violations": []}
+    obj = None
+    units = 0
+    n_gen = 0
+    viols = []
+    digests = []
+    events = 0
+    pols = ["faithful", "uniform_support", "sticky", "rare"]
+    while units < spec["units"] and n_gen < 4000:
+        sk = {"seed": spec["seed"] + n_gen, "choice_policy": pols[n_gen % len(pols)], "draw_policy": "natural", "script": None, "budget": 6000}
+        out = genrun.run_molecule(text, sk, props=PROPS, embed="stub", cap_mass=None, wall=150, ast=ast, reuse_obj=obj)
+        if out.harness_error:
+            return {"harness_error": out.harness_error, "violations": []}
+        if isinstance(out.exc, genrun.WallTimeout):
+            return {"harness_error": "wall-clock watchdog fired in an endurance run", "violations": []}
+        obj = out.mol_obj if obj is None else obj
+        n_gen += 1
+        digests.append(out.world.digest() if out.world else "")
+        events += len(out.world.log) if out.world else 0
+        recs = getattr(out.audit, "stop_records", []) if out.audit else []
+        units += sum(len(r["added"]) for r in recs)
+        if out.violations:
+            for v in out.violations:
+                v["msg"] = f"[generation {n_gen} from one parsed object, {units} units attached over its lifetime] " + v["msg"]
+                v["features"] = ["endurance"]
+                v["input"] = text
+            viols = out.violations
+            break
+        if out.exc is not None:
+            break
+    stats = {"runs": 1, "endurance_runs": 1, "endurance_generations": n_gen, "endurance_units": units, "events": events}
+    sig = hashlib.sha1((text + str(spec["seed"])).encode()).hexdigest()
+    sample = {"kind": "endurance", "input": text, "generations": n_gen, "units_attached": units}
+    return {"violations": viols, "stats": stats, "sig": sig, "nontrivial": n_gen >= 50, "sample": sample,
+            "digest": hashlib.sha256("".join(digests).encode()).hexdigest(), "trace": None}
+
+
+def shrink_candidates(spec):
+    if spec.get("kind") == "endurance":
+        return
+    yield from gc.shrink_candidates(spec)
